@@ -112,6 +112,7 @@ struct Pass {
   void bystanders() {
     // unrelated objects of other configurations living and working between the subject's calls (differ between
     // environments): anything the library keeps outside the object's own bytes is exposed to them
+    g_arch_force = -1;
     g_rand_stream = &byst_rand;   // bystanders draw their FUZZING decisions from their own stream, never from a twin's
     for (int k = 0; k < env.nbyst; k++) {
       if (byst_e.size() < 3 && brng.chance(0.5)) {
@@ -123,6 +124,7 @@ struct Pass {
           if (brng.chance(0.2)) e->set(OPUS_SET_INBAND_FEC_REQUEST, 1), e->set(OPUS_SET_PACKET_LOSS_PERC_REQUEST, 20);
           byst_e.push_back(std::move(e));
         }
+        g_rand_stream = &byst_rand;
       }
       if (byst_d.size() < 2 && brng.chance(0.5)) { auto d = std::make_unique<DecNode>(); if (d->create_single(kRates[brng.range(0, 4)], (int)brng.range(1, 2), -1) == OPUS_OK) byst_d.push_back(std::move(d)); }
       if (!byst_e.empty()) {
@@ -132,6 +134,7 @@ struct Pass {
         s.p0 = (int64_t)brng.pick({50, 80, 150, 440, 3000}); s.seed = (int64_t)brng.range(1, 1000);
         src_fill(s, e.L.fs, e.L.ch, (int64_t)brng.range(0, 100000), frame, pcm.data());
         Bytes pkt; int r = e.encode(pcm.data(), frame, 400, (int)brng.range(0, 2), pkt);
+        g_rand_stream = &byst_rand;   // never leave the global pointing into a bystander that may be destroyed below
         if (r > 0 && !byst_d.empty()) {
           DecNode &d = *byst_d[brng.range(0, (int64_t)byst_d.size() - 1)];
           int out = (int)((int64_t)frame * d.fs / e.L.fs);
@@ -144,7 +147,9 @@ struct Pass {
   }
   // between the calls on two twins (only in the environment that has bystanders, and only sometimes)
   void between_twins() { if (env.nbyst > 0 && brng.chance(0.35)) bystanders(); }
-  void before_call(Twin &t) { g_rand_stream = &t.rs; g_arch_cap = arch_cap; scribble_stack(env.stackpat); }
+  // every twin of the subject runs at the same, plan-chosen CPU level (in the FUZZING build the library would otherwise draw a random
+  // level per init, and float results legitimately differ between levels - that is C15's subject, not C12's)
+  void before_call(Twin &t) { g_rand_stream = &t.rs; g_arch_cap = arch_cap; g_arch_force = arch_cap >= 0 ? arch_cap : 99; scribble_stack(env.stackpat); }
 
   // SUBJ kind fsidx ch app family cap rseed
   void op_subj(const Op &op) {
@@ -153,6 +158,7 @@ struct Pass {
     cfg.fs = kRates[((op.arg(1) % 5) + 5) % 5];
     cfg.app = kApps[((op.arg(3) % 3) + 3) % 3];
     arch_cap = (int)op.arg(5, -1);
+    g_arch_force = arch_cap >= 0 ? arch_cap : 99;   // the helper encoder too (same level in both passes)
     int ch = (int)std::max<int64_t>(1, op.arg(2, 1));
     int ek = cfg.kind % 3;   // encoder flavour behind it
     Layout l; l.fs = cfg.fs; l.app = cfg.app;
